@@ -536,6 +536,24 @@ Section WithPredicates.
   Definition check_child (p : schema) (c : childdef) : bool :=
     check_new p c && check_consts p c && check_overrides p c.
 
+  (** ** Inheritance chains: every class is checked against its immediate base
+      ([check_types] recurses over [__bases__], plugin or not) *)
+  Fixpoint check_chain (p : schema) (cs : list childdef) : bool :=
+    match cs with
+    | [] => true
+    | c :: r => check_child p c && check_chain (child_schema p c) r
+    end.
+
+  (** the root and every class derived from it along the chain, root first *)
+  Fixpoint chain_schemas (p : schema) (cs : list childdef) : list schema :=
+    p :: match cs with
+         | [] => []
+         | c :: r => chain_schemas (child_schema p c) r
+         end.
+
+  Definition leaf_schema (p : schema) (cs : list childdef) : schema :=
+    fold_left child_schema cs p.
+
 End WithPredicates.
 
 (** ** Runner entry point.
@@ -646,7 +664,9 @@ Definition sx_child (x : sx) : option childdef :=
     [(subrow ptable a (b...))]    -> [((is_subtype safe_pair)...)]
     [(acc ptable t (j...))]       -> [((accepts nf)...)]
     [(chk ptable parent child (j...))]
-        -> [(check_child check_child_pinned ((child-accepts parent-accepts)...))] *)
+        -> [(check_child check_child_pinned ((child-accepts parent-accepts)...))]
+    [(chain ptable root (child...) (j...))]
+        -> [(check_chain ((leaf-accepts (class-accepts... root first))...))] *)
 Definition run_c13 (x : sx) : sx :=
   match x with
   | L [A "sub"; pt; a; b] =>
@@ -677,6 +697,16 @@ Definition run_c13 (x : sx) : sx :=
              of_list (fun j => L [of_bool (accepts pr (obj_of (child_schema p c)) j);
                                   of_bool (accepts pr (obj_of p) j)]) js]
       | _, _, _, _ => sx_bad "chk"
+      end
+  | L [A "chain"; pt; p; cs; js] =>
+      match sx_ptable pt, sx_schema p, sx_map sx_child cs, sx_map sx_jval js with
+      | Some pt, Some p, Some cs, Some js =>
+          let pr := table_pred pt in
+          L [of_bool (check_chain pr p cs);
+             of_list (fun j => L [of_bool (accepts pr (obj_of (leaf_schema p cs)) j);
+                                  of_list (fun s => of_bool (accepts pr (obj_of s) j))
+                                          (chain_schemas p cs)]) js]
+      | _, _, _, _ => sx_bad "chain"
       end
   | _ => sx_bad "c13"
   end.
